@@ -114,13 +114,14 @@ muts=[
 
 ]
 only=sys.argv[1:]
+FIRST_ONLY={"batch-ask-sent-without-asking"}  # pattern occurs in DoMulti's and DoMultiCache's result functions: mutate the first (DoMulti)
 for prop,name,f,old,new in muts:
     if only and prop not in only and name not in only: continue
     subprocess.check_call(['git','-C',R,'checkout','-q','--','.'])
     s=open(f'{R}/{f}').read()
-    if s.count(old)!=1:
+    if s.count(old)!=1 and not (name in FIRST_ONLY and s.count(old)>1):
         print(prop,name,"PATTERN-MISMATCH",s.count(old)); continue
-    open(f'{R}/{f}','w').write(s.replace(old,new))
+    open(f'{R}/{f}','w').write(s.replace(old,new,1))
     b=subprocess.run(['go','build','./...'],cwd=R,env={**{k:v for k,v in __import__('os').environ.items() if k!='GOTOOLCHAIN'},'GOFLAGS':'-mod=mod'},capture_output=True,text=True)
     if b.returncode!=0:
         print(prop,name,"BUILD-FAIL",b.stderr[:200]); continue
